@@ -576,7 +576,13 @@ func (r *Run) stateKey() uint64 {
 
 // TouchHB records, without a scheduling point, that the running thread read or
 // wrote the given objects (timer arming, harness bookkeeping).
-func (r *Run) TouchHB(kind string, objs ...*Obj) {
+func (r *Run) TouchHB(kind string, objs ...*Obj) { r.touchHB(kind, true, objs...) }
+
+// TouchHBOnly is TouchHB without joining vector clocks: the access orders executions for the state hashes but is
+// not treated as synchronisation by the race monitor.
+func (r *Run) TouchHBOnly(kind string, objs ...*Obj) { r.touchHB(kind, false, objs...) }
+
+func (r *Run) touchHB(kind string, vc bool, objs ...*Obj) {
 	t := r.current
 	if t == nil {
 		return
@@ -590,7 +596,7 @@ func (r *Run) TouchHB(kind string, objs ...*Obj) {
 		o.HB = h
 	}
 	t.hb = h
-	if r.cfg.Race {
+	if r.cfg.Race && vc {
 		// the timer queue is shared state for the happens-before hashes, but arming or stopping a timer does not
 		// synchronise with other users of the clock
 		var sync []*Obj
